@@ -2640,10 +2640,19 @@ pub fn assign(env: &REnv, lhs: &EvaluatedLvalue, rt: Option<&ObjType>, rhs: Obj)
             "Can't assign to raw splat {:?}",
             lhs
         ))),
-        EvaluatedLvalue::Or(a, b) => match assign(env, a, rt, rhs.clone()) {
-            Ok(()) => Ok(()),
-            Err(_) => assign(env, b, rt, rhs),
-        },
+        EvaluatedLvalue::Or(a, b) => {
+            // When declaring, try the first alternative in a scratch scope first: if it fails
+            // halfway, the names it declared must not get in the way of the second alternative.
+            let first = match rt {
+                Some(_) => assign(&Env::with_parent(env), a, rt, rhs.clone())
+                    .and_then(|()| assign(env, a, rt, rhs.clone())),
+                None => assign(env, a, rt, rhs.clone()),
+            };
+            match first {
+                Ok(()) => Ok(()),
+                Err(_) => assign(env, b, rt, rhs),
+            }
+        }
         EvaluatedLvalue::And(a, b) => {
             assign(env, a, rt, rhs.clone())?;
             assign(env, b, rt, rhs)
